@@ -13,6 +13,11 @@
    - known finding [C09_insert_count_middle_refuted]: insert(pos, n, v) with pos < size() and a copy that throws while the gap
      is being filled leaves moved-from elements visible and live elements beyond size() (witness: size 5, pos 2, n 3, first
      copy throws) - recorded in known_findings.json, not repaired (needs a new roll-back helper).
+   - [C09_emplace_*] (EmplaceGrow.v: the temporary of emplace and the argument are slots of the memory, the new block a second
+     index range; the allocation is a throwing event): single-element insert / emplace within capacity and the growth path of
+     emplace / emplace_back (push_back(T&&), insert(pos, T&&)): a throw leaves every slot as before - the argument included,
+     which the code before the give-back fix left moved-from ([C09_emplace_grow_without_give_back_refuted]) - and the temporary
+     destroyed; on completion the new block holds prefix, new element, suffix and the old block nothing alive;
    - sets [C09_flatset_*]: FlatSet::operator=(const FlatSet&), insert(first, last) and restoreInvariants() are REGENERATED
      from flatset.hpp (Gen/HintGen.v: the try block becomes a match on [thr : option (list Z)], [Some l'] = "an operation
      of the vector threw and left the vector as l'", for ANY l' - the vector only promises the basic guarantee).  Whatever
@@ -24,6 +29,7 @@
    the element ledger, the allocator ledger, contents (strong operations: unchanged) and usability are checked. *)
 From Coq Require Import ZArith List Bool Sorted.
 From Amc Require Import Throw.
+From Amc Require EmplaceGrow.
 From Amc Require Hint HintTV.
 From Amc.Gen Require HintGen SsetGen.
 From Amc Require SsetTV.
@@ -110,3 +116,59 @@ Proof. exact SsetTV.copy_assign_thrown. Qed.
 Theorem C09_smallset_copy_assign_without_exception :
   forall vec set ovec oset self, SsetGen.copy_assign_gen vec set ovec oset self None = inl (if self then (vec, set) else (ovec, oset)).
 Proof. exact SsetTV.copy_assign_tv. Qed.
+
+(* ---- single-element insertion: within capacity (emplace_n / insert_n) and through growth (emplace, emplace_back) ---- *)
+Import EmplaceGrow.
+Theorem C09_emplace_within_capacity :
+  forall m th size cap pos e a k va, EmplaceNPre m size cap pos e a va ->
+  match emplace_n m th pos (size - pos) e a k with
+  | Threw m' => k = Lvalue /\ th = Some 0 /\ (forall j, m' j = m j)
+  | Done m' _ => (forall j, j < pos -> m' j = m j) /\ m' pos = Live va /\ (forall j, pos <= j < size -> m' (S j) = m j) /\
+                 m' e = Raw /\ m' a = arg_after k va /\ Inv (blockview m' 0 cap) (size + 1) cap /\
+                 (forall j, size < j -> j <> e -> j <> a -> m' j = m j)
+  | Err _ => False end.
+Proof. exact emplace_n_spec. Qed.
+
+Theorem C09_insert_value_within_capacity_strong :
+  forall m th size cap pos v, Inv m size cap -> size < cap -> pos <= size ->
+  match insert_n m th pos (size - pos) v with
+  | Threw m' => th = Some 0 /\ (forall j, m' j = m j)
+  | Done m' _ => (forall j, j < pos -> m' j = m j) /\ m' pos = Live v /\ (forall j, pos <= j < size -> m' (S j) = m j) /\
+                 Inv m' (size + 1) cap
+  | Err _ => False end.
+Proof. exact insert_n_strong. Qed.
+
+Theorem C09_emplace_grow_rvalue_argument :
+  forall m th size pos e a nb va, GrowPre m size pos e a nb va ->
+  match emplace_grow true m th size pos e a Rvalue nb with
+  | Threw m' => th = Some 0 /\ (forall j, j < size -> m' j = m j) /\ m' a = Live va /\ m' e = Raw /\
+                (forall j, nb <= j < nb + next_cap size -> is_live (m' j) = false)
+  | Done m' _ => (forall j, j < pos -> m' (nb + j) = m j) /\ m' (nb + pos) = Live va /\
+                 (forall j, pos <= j < size -> m' (nb + S j) = m j) /\
+                 Inv (blockview m' nb (next_cap size)) (size + 1) (next_cap size) /\
+                 (forall j, j < size -> is_live (m' j) = false) /\ m' a = Moved /\ m' e = Raw
+  | Err _ => False end.
+Proof. exact emplace_grow_rvalue. Qed.
+
+Theorem C09_emplace_grow_lvalue_argument :
+  forall m th size pos e a nb va, GrowPre m size pos e a nb va ->
+  match emplace_grow true m th size pos e a Lvalue nb with
+  | Threw m' => (th = Some 0 \/ th = Some 1) /\ (forall j, j < size -> m' j = m j) /\ m' a = Live va /\ m' e = Raw /\
+                (forall j, nb <= j < nb + next_cap size -> is_live (m' j) = false)
+  | Done m' _ => (forall j, j < pos -> m' (nb + j) = m j) /\ m' (nb + pos) = Live va /\
+                 (forall j, pos <= j < size -> m' (nb + S j) = m j) /\
+                 Inv (blockview m' nb (next_cap size)) (size + 1) (next_cap size) /\
+                 (forall j, j < size -> is_live (m' j) = false) /\ m' a = Live va /\ m' e = Raw
+  | Err _ => False end.
+Proof. exact emplace_grow_lvalue. Qed.
+
+(* the code before the give-back repair: the allocation throws, the block is as before, the argument has been consumed *)
+Theorem C09_emplace_grow_without_give_back_refuted :
+  exists m th size pos e a nb va m',
+  GrowPre m size pos e a nb va /\ emplace_grow false m th size pos e a Rvalue nb = Threw m' /\
+  (forall j, (j < size)%nat -> m' j = m j) /\ m' e = Raw /\ m a = Live va /\ m' a = Moved.
+Proof. exact emplace_grow_nogb_refuted. Qed.
+
+Example C09_emplace_hypotheses_met :
+  EmplaceNPre (init_lay 3 5 99) 3 5 1 6 7 99 /\ GrowPre (init_lay 3 3 99) 3 1 4 5 7 99.
+Proof. split; [exact emplace_n_pre_ex|exact grow_pre_ex]. Qed.
